@@ -48,6 +48,7 @@ THEOREMS = [
     "OllamaVerif.C06.evict_invisible",
     "OllamaVerif.C06.specSlide_invisible",
     "OllamaVerif.C06.encoder_cached_exact",
+    "OllamaVerif.C06.swa_capacity_variants",
     "OllamaVerif.C06.inv_run",
     "OllamaVerif.C06.startForward_inv",
     "OllamaVerif.C06.wrapper_mask_exact",
@@ -76,7 +77,8 @@ def matcher(finding, failure):
     return core.default_matcher(finding, failure)
 
 
-BIT_NAMES = {1: "F14 (defrag coalescing)", 2: "F15b (CanResume coverage)", 4: "F23 (defrag without layers)"}
+BIT_NAMES = {1: "F14 (defrag coalescing)", 2: "F15b (CanResume coverage)", 4: "F23 (defrag without layers)",
+             8: "C07 F-SWA-capacity (sliding-window cache sized per sequence)"}
 
 
 def probe_variant(ctx):
